@@ -245,7 +245,7 @@ func c14History(c *ev.Ctx) {
 	crossedCapacity, didReload, collisionLive := false, false, false
 	var backing *memio.File // the file the current tree was loaded from (nil: built in memory)
 	var backingAddr uint64
-	writeAtSessions := 0
+	writeAtSessions, sameObjectWriteBacks := 0, 0
 	fail := func(key string, detail any) {
 		trimmed := hist
 		if len(trimmed) > 60 {
@@ -482,10 +482,16 @@ func c14History(c *ev.Ctx) {
 					fail("persist:bytes:"+tag(), msg)
 					return
 				}
-				if cs.Mode == "lazy" {
-					nb.EnableLazyRebalancing(structures.DefaultLazyConfig())
+				// continue on the freshly loaded copy, or keep the object that has just written
+				// itself back (one loaded tree written back several times as it changes)
+				if r.Bool() {
+					if cs.Mode == "lazy" {
+						nb.EnableLazyRebalancing(structures.DefaultLazyConfig())
+					}
+					bt = nb
+				} else {
+					sameObjectWriteBacks++
 				}
-				bt = nb
 				writeAtSessions++
 				break
 			}
@@ -582,6 +588,7 @@ done:
 	}
 record:
 	c.Count("in_place_write_back_sessions", int64(writeAtSessions))
+	c.Count("write_backs_by_an_object_that_wrote_back_before", int64(sameObjectWriteBacks))
 	desc := fmt.Sprintf("%s|ns%d|cap%v|reload%v|coll%v|ops%d|live%d", cs.Mode, cs.NodeSize, crossedCapacity, didReload, collisionLive, len(hist)/20, len(model)/20)
 	c.Case(desc, len(hist) >= 3)
 	c.Count("mode:"+cs.Mode, 1)
